@@ -240,6 +240,67 @@ func checkC11(r *core.Result) {
 		})
 	}
 	r.Ob("D6", "type cache reached only through sync.Map methods", "message_types.go", cacheObj != nil && cacheOK && nUses >= 2, fmt.Sprintf("uses=%d; the cache must only be used as receiver of sync.Map method calls", nUses))
+	// D6b: the cache only ever holds deduced classifications — every value written to it is the result of
+	// deduceMsgType (no placeholder that a concurrent first user could observe), and every result of MsgType
+	// is a cache hit or that deduced value
+	nWrites := 0
+	for _, f := range core.Funcs(root) {
+		if f.Decl == nil {
+			continue
+		}
+		deduced := map[types.Object]bool{}
+		ast.Inspect(f.Decl.Body, func(n ast.Node) bool {
+			as, ok := n.(*ast.AssignStmt)
+			if !ok || len(as.Lhs) != 1 || len(as.Rhs) != 1 {
+				return true
+			}
+			if c, ok := as.Rhs[0].(*ast.CallExpr); ok {
+				if fn := staticCallee(info, c); fn != nil && fn.Name() == "deduceMsgType" {
+					if id, ok := as.Lhs[0].(*ast.Ident); ok {
+						if o := info.Defs[id]; o != nil {
+							deduced[o] = true
+						} else if o := info.Uses[id]; o != nil {
+							deduced[o] = true
+						}
+					}
+				}
+			}
+			return true
+		})
+		ast.Inspect(f.Decl.Body, func(n ast.Node) bool {
+			c, ok := n.(*ast.CallExpr)
+			if !ok {
+				return true
+			}
+			se, ok := c.Fun.(*ast.SelectorExpr)
+			if !ok {
+				return true
+			}
+			if id, ok := se.X.(*ast.Ident); !ok || cacheObj == nil || info.Uses[id] != cacheObj {
+				return true
+			}
+			valIdx := map[string]int{"Store": 1, "LoadOrStore": 1, "Swap": 1, "CompareAndSwap": 2}
+			idx, writes := valIdx[se.Sel.Name]
+			if !writes {
+				return true
+			}
+			nWrites++
+			okVal := false
+			if idx < len(c.Args) {
+				switch v := c.Args[idx].(type) {
+				case *ast.Ident:
+					okVal = deduced[info.Uses[v]]
+				case *ast.CallExpr:
+					if fn := staticCallee(info, v); fn != nil && fn.Name() == "deduceMsgType" {
+						okVal = true
+					}
+				}
+			}
+			r.Ob("D6", f.Name+" :: unmarshalMap."+se.Sel.Name+" stores a deduced classification", prog.Pos(c.Pos()), okVal, "a value other than the result of deduceMsgType is written to the type cache: a goroutine racing on the first use of the type can read it and get a wrong classification (Clone returns nil, Equal false, MarshalText an error for a valid message)")
+			return true
+		})
+	}
+	r.Floor("writes to the type cache", nWrites, 1)
 	for _, f := range core.Funcs(root) {
 		if f.Decl == nil {
 			continue
